@@ -10,6 +10,14 @@
 #include "oomd/config/JsonConfigParser.h"
 #include "oomd/util/Util.h"
 
+#include <fcntl.h>
+#include <sys/stat.h>
+#include <unistd.h>
+#include <thread>
+#include "oomd/OomdContext.h"
+#include "oomd/dropin/FsDropInService.h"
+#include "oomd/engine/Engine.h"
+
 using namespace vp;
 using namespace vpgen;
 using u128 = unsigned __int128;
@@ -549,8 +557,118 @@ Json::Value genTyped() {
   return c;
 }
 
+
+// {"sub":"dropin","files":[{"name","text","when":"pre|rt","expect":"accept|reject|dontcare","marker"}]}:
+// drop-in documents delivered through the real FsDropInService - present at
+// start-up (loaded synchronously by create()) or written while the watcher
+// thread runs. A valid document gets a wrong-shaped value at a generated
+// position; whatever the loader decides, nothing may escape and the rest of
+// the engine stays as it was.
+void collectNodes(Json::Value& v, std::vector<Json::Value*>& out) {
+  out.push_back(&v);
+  if (v.isArray())
+    for (auto& x : v) collectNodes(x, out);
+  if (v.isObject())
+    for (auto& k : v.getMemberNames()) collectNodes(v[k], out);
+}
+Json::Value genDropinRt() {
+  Json::Value c(Json::objectValue);
+  c["sub"] = "dropin";
+  int n = R(1, 4);
+  for (int i = 0; i < n; i++) {
+    Json::Value f(Json::objectValue);
+    std::string marker = "m" + std::to_string(i);
+    f["name"] = "f" + std::to_string(i);
+    f["marker"] = marker;
+    f["when"] = P(50) ? "pre" : "rt";
+    Json::Value doc(Json::objectValue), r(Json::objectValue), dg(Json::arrayValue), d(Json::objectValue);
+    r["name"] = "b0";
+    dg.append("g");
+    d["name"] = "vp_detector";
+    d["args"]["id"] = marker;
+    dg.append(d);
+    r["detectors"].append(dg);
+    if (P(40)) {
+      Json::Value a(Json::objectValue);
+      a["name"] = "vp_action";
+      a["args"]["id"] = "a_" + marker;
+      r["actions"].append(a);
+    }
+    if (P(30)) r["post_action_delay"] = "0";
+    if (P(30)) r["silence-logs"] = "engine";
+    if (P(20)) r["prekill_hook_timeout"] = "5";
+    doc["rulesets"].append(r);
+    int k = W({25, 50, 25});
+    if (k == 0) {
+      f["expect"] = "accept";
+      f["text"] = jstr(doc);
+    } else if (k == 1) {
+      std::vector<Json::Value*> nodes;
+      collectNodes(doc, nodes);
+      Json::Value* at = nodes[R(0, (int)nodes.size() - 1)];
+      Json::Value orig = *at, bad;
+      switch (R(0, 8)) {
+        case 0:
+          bad = Json::Value();
+          break;
+        case 1:
+          bad = 3;
+          break;
+        case 2:
+          bad = -1.5;
+          break;
+        case 3:
+          bad = "yes";
+          break;
+        case 4:
+          bad = true;
+          break;
+        case 5:
+          bad = Json::Value(Json::arrayValue);
+          break;
+        case 6:
+          bad = Json::Value(Json::arrayValue);
+          bad.append(orig);
+          break;
+        case 7:
+          bad = Json::Value(Json::objectValue);
+          break;
+        default:
+          bad = Json::Value(Json::objectValue);
+          bad["a"] = orig;
+      }
+      *at = bad;
+      f["expect"] = "dontcare";
+      f["text"] = jstr(doc);
+    } else {
+      static const std::vector<std::string> shapes = {
+          "[1,2,3]",
+          "{\"rulesets\":[3]}",
+          "{\"rulesets\":[{\"name\":{\"x\":1},\"detectors\":[[\"g\",{\"name\":\"vp_detector\",\"args\":{\"id\":\"@\"}}]]}]}",
+          "{\"rulesets\":[{\"name\":\"b0\",\"drop-in\":\"yes\",\"detectors\":[[\"g\",{\"name\":\"vp_detector\",\"args\":{\"id\":\"@\"}}]]}]}",
+          "{\"rulesets\":[{\"name\":\"b0\",\"silence-logs\":[\"engine\"],\"detectors\":[[\"g\",{\"name\":\"vp_detector\",\"args\":{\"id\":\"@\"}}]]}]}",
+          "{\"rulesets\":[{\"name\":\"b0\",\"post_action_delay\":{\"a\":1},\"detectors\":[[\"g\",{\"name\":\"vp_detector\",\"args\":{\"id\":\"@\"}}]]}]}",
+          "{\"rulesets\":[{\"name\":\"b0\",\"detectors\":[[\"g\",5]]}]}",
+          "{\"rulesets\":[{\"name\":\"b0\",\"detectors\":[[\"g\",{\"name\":\"vp_detector\",\"args\":{\"id\":[\"@\"]}}]]}]}",
+          "{\"rulesets\":[{\"name\":\"b0\",\"detectors\":[[\"g\",{\"name\":\"vp_detector\",\"args\":{\"id\":\"@\"}},{\"name\":\"pressure_above\",\"args\":{\"cgroup\":\"x\",\"resource\":\"memory\",\"threshold\":\"80\",\"duration\":\"5\",\"nosuch\":\"1\"}}]]}]}",
+          "{\"rulesets\":[{\"name\":\"b0\",\"detectors\":[[\"g\",{\"name\":\"vp_detector\",\"args\":{\"id\":\"@\"}},{\"name\":\"pressure_above\",\"args\":{\"cgroup\":\"x\",\"resource\":\"memory\",\"threshold\":\"80\"}}]]}]}",
+          "{\"rulesets\":[{\"name\":\"b0\",\"detectors\":[[\"g\",{\"name\":\"no_such_plugin\",\"args\":{\"id\":\"@\"}}]]}]}",
+          "{\"rulesets\":[{\"name\":\"b0\",\"detectors\":[[\"g\",{\"name\":\"vp_detector\",\"args\":{\"id\":\"@\"}}]]",
+      };
+      std::string t = oneOf(shapes);
+      auto pos = t.find('@');
+      if (pos != std::string::npos) t.replace(pos, 1, marker);
+      f["expect"] = "reject";
+      f["text"] = t;
+    }
+    c["files"].append(f);
+  }
+  return c;
+}
+
 Json::Value gen() {
-  int k = W({28, 16, 28, 8, 10, 10});
+  int k = W({26, 15, 26, 8, 9, 9, 7});
+  if (k == 6) return genDropinRt();
   if (k == 0) return genSize();
   if (k == 1) return genPct();
   if (k == 2) return genIR();
@@ -762,6 +880,138 @@ Verdict run(const Json::Value& c) {
     }
     v.nontrivial = c["args"].isMember("l") || c["args"].isMember("ms") || c["args"].isMember("d");
     v.labels.push_back("typed");
+    g.active = false;
+    return v;
+  }
+  if (sub == "dropin") {
+    auto& P_ = Process::get();
+    Sim& sim = *P_.sim;
+    // two threads run oomd code: the shim stays passive (as in the C14 harness)
+    g.active = false;
+    g.reset();
+    g.scratch = sim.scratch();
+    g.cgroot = sim.cgroot();
+    g.vclock = false;
+    Json::Value sj(Json::objectValue);
+    sj["detectors"]["*"] = "C";
+    sj["actions"]["*"] = "C";
+    scripts.reset(sj);
+    std::string dir = P_.base + "/dropins12";
+    std::string cmd = "rm -rf '" + dir + "' && mkdir -p '" + dir + "'";
+    if (system(cmd.c_str()) != 0) {
+    }
+    auto put = [&](const std::string& name, const std::string& text) {
+      std::string tmp = P_.base + "/dropin12.tmp";
+      int fd = ::open(tmp.c_str(), O_WRONLY | O_CREAT | O_TRUNC, 0644);
+      if (fd < 0) return;
+      if (::write(fd, text.data(), text.size()) < 0) {
+      }
+      ::close(fd);
+      ::rename(tmp.c_str(), (dir + "/" + name).c_str());
+    };
+    Json::Value base(Json::objectValue);
+    for (const char* bn : {"b0", "b1"}) {
+      Json::Value r(Json::objectValue), dg(Json::arrayValue), d(Json::objectValue), a(Json::objectValue);
+      r["name"] = bn;
+      r["drop-in"]["detectors"] = true;
+      r["drop-in"]["actions"] = true;
+      dg.append("g");
+      d["name"] = "vp_detector";
+      d["args"]["id"] = std::string("base_") + bn;
+      dg.append(d);
+      r["detectors"].append(dg);
+      a["name"] = "vp_action";
+      a["args"]["id"] = std::string("act_") + bn;
+      r["actions"].append(a);
+      r["post_action_delay"] = "0";
+      base["rulesets"].append(r);
+    }
+    for (auto& f : c["files"])
+      if (f["when"].asString() == "pre") put(f["name"].asString(), f["text"].asString());
+    bool anyReject = false, anyMutated = false, anyRt = false;
+    try {
+      Oomd::Config2::JsonConfigParser parser;
+      auto ir = parser.parse(jstr(base));
+      auto engine = Oomd::Config2::compile(*ir, pcc);
+      if (!engine) {
+        v.fail("base configuration of the drop-in sub-check does not compile");
+        return v;
+      }
+      Oomd::OomdContext ctx;
+      auto svc = Oomd::FsDropInService::create(sim.cgroot(), *ir, *engine, dir);
+      if (!svc) {
+        v.fail("FsDropInService::create failed");
+        return v;
+      }
+      auto tick = [&]() {
+        size_t mark;
+        {
+          std::lock_guard<std::recursive_mutex> l(g.mu);
+          mark = g.trace.size();
+        }
+        svc->updateDropIns();
+        ctx.refresh();
+        engine->prerun(ctx);
+        engine->runOnce(ctx);
+        std::vector<std::string> ids;
+        std::lock_guard<std::recursive_mutex> l(g.mu);
+        for (size_t i = mark; i < g.trace.size(); i++)
+          if (g.trace[i].k == "plugin" && g.trace[i].s == "run") ids.push_back(g.trace[i].s2);
+        return ids;
+      };
+      tick();
+      for (auto& f : c["files"])
+        if (f["when"].asString() == "rt") {
+          put(f["name"].asString(), f["text"].asString());
+          anyRt = true;
+        }
+      // fence: a valid drop-in for b1 written last is picked up after all others
+      put("zz-fence",
+          "{\"rulesets\":[{\"name\":\"b1\",\"detectors\":[[\"g\",{\"name\":\"vp_detector\",\"args\":{\"id\":\"FENCE\"}}]]}]}");
+      std::vector<std::string> ids;
+      bool seen = false;
+      int waitedTicks = 0;
+      auto t0 = std::chrono::steady_clock::now();
+      while (!seen) {
+        ids = tick();
+        waitedTicks++;
+        seen = std::find(ids.begin(), ids.end(), "FENCE") != ids.end();
+        if (seen) break;
+        auto ms = std::chrono::duration_cast<std::chrono::milliseconds>(std::chrono::steady_clock::now() - t0).count();
+        if (waitedTicks >= 600 && ms >= 3000) break;
+        std::this_thread::sleep_for(std::chrono::milliseconds(2));
+      }
+      if (!seen) {
+        v.fail("after the generated drop-ins a valid drop-in is no longer picked up (watcher wedged or dead)");
+      } else {
+        ids = tick();
+        auto has = [&](const std::string& id) { return std::find(ids.begin(), ids.end(), id) != ids.end(); };
+        for (const char* must : {"base_b0", "base_b1", "act_b1"})
+          if (v.ok && !has(must)) v.fail(std::string("base plugin ") + must + " no longer runs after the drop-ins " + jstr(c["files"]));
+        for (auto& f : c["files"]) {
+          if (!v.ok) break;
+          std::string e = f["expect"].asString(), m = f["marker"].asString();
+          if (e == "reject") anyReject = true;
+          if (e == "dontcare") anyMutated = true;
+          if (e == "accept" && !has(m)) v.fail("valid drop-in " + f["name"].asString() + " is not active: " + f["text"].asString());
+          if (e == "reject" && (has(m) || has("a_" + m))) v.fail("invalid drop-in " + f["name"].asString() + " is active: " + f["text"].asString());
+        }
+        // nothing but base plugins, the fence and the files' own plugins runs
+        for (auto& id : ids) {
+          if (!v.ok || anyMutated) break; // a mutated document may legitimately name other plugins
+          bool known = id == "FENCE" || id.compare(0, 5, "base_") == 0 || id.compare(0, 4, "act_") == 0;
+          for (auto& f : c["files"])
+            if (id == f["marker"].asString() || id == "a_" + f["marker"].asString()) known = true;
+          if (!known) v.fail("plugin " + id + " runs but belongs to no configuration given");
+        }
+      }
+    } catch (const std::exception& e) {
+      v.fail(std::string("exception escaped from drop-in loading: ") + e.what() + " files " + jstr(c["files"]));
+    }
+    v.nontrivial = anyReject || anyMutated;
+    v.labels.push_back("dropin_service");
+    if (anyRt) v.labels.push_back("dropin_at_run_time");
+    if (anyMutated) v.labels.push_back("dropin_wrong_shape_position");
     g.active = false;
     return v;
   }
